@@ -361,8 +361,23 @@ fn members() -> BoxedStrategy<Vec<ValSpec>> {
                 })
                 .collect::<Vec<_>>()
         });
+    // every member twice, once with each case flag (equal needles in a case-sensitive and a
+    // case-insensitive batch of one list)
+    let twins = prop::collection::vec(("[ab]{1,2}", 0u8..4), 2..=3).prop_map(|ms| {
+        let pats: Vec<String> = ms
+            .iter()
+            .map(|(n, k)| match k {
+                0 => n.clone(),
+                1 => format!("{n}*"),
+                2 => format!("*{n}"),
+                _ => format!("*{n}*"),
+            })
+            .collect();
+        pats.iter().cloned().chain(pats.iter().map(|p| format!("i{p}"))).map(ValSpec::Str).collect::<Vec<_>>()
+    });
     prop_oneof![
         5 => one_batch,
+        2 => twins,
         3 => prop::collection::vec(gen::string_pattern().prop_map(ValSpec::Str), 1..=5),
         3 => regexes,
         3 => prop::collection::vec(prop_oneof![
@@ -437,6 +452,15 @@ fn palette_cases(max_len: usize) -> Vec<Case> {
 /// Lists around the 64-member boundary (the solver counts hits in a bitmap below it and in a hash
 /// set from it on), all in one automaton batch, against documents holding chosen subsets.
 pub fn big_list_cases(tier: &str) -> Vec<Case> {
+    big_list_cases_of_kind(tier, "c08.members")
+}
+
+/// The same lists as cases for the reference interpreter (rule + negated rule).
+pub fn big_list_reference_cases(tier: &str) -> Vec<Case> {
+    big_list_cases_of_kind(tier, "c08.reference")
+}
+
+fn big_list_cases_of_kind(tier: &str, kind: &str) -> Vec<Case> {
     let lens: &[usize] = if tier == "thorough" { &[62, 63, 64, 65, 66, 80, 130] } else { &[63, 64, 65, 70] };
     let mut out = vec![];
     for &len in lens {
@@ -506,7 +530,7 @@ pub fn big_list_cases(tier: &str) -> Vec<Case> {
                 for form in [0u8, 3] {
                     let q = QCase { quant, n, members: members.clone(), form, recipes: vec![] };
                     for mut c in expand(&q) {
-                        if c.kind == "c08.members" {
+                        if c.kind == kind {
                             c.docs = docs.clone();
                             c.extra["big"] = json!(true);
                             out.push(c);
